@@ -39,7 +39,7 @@ REPORT = ['histories', 'history_calls', 'option_history_calls', 'crash_points_en
           'crash_outcome:error', 'damage_cases', 'damage_outcome:equal', 'damage_outcome:error', 'evaluations']
 FLOORS = {'quick': {'history_calls': 150, 'option_history_calls': 150, 'crash_points_enumerated': 150, 'damage_cases': 100},
           'thorough': {'history_calls': 600, 'option_history_calls': 600, 'crash_points_enumerated': 600, 'damage_cases': 400}}
-TIMEOUT = {'quick': 1800, 'thorough': 14000}
+TIMEOUT = {'quick': 1800, 'thorough': 5400}
 KINDS = ['pwrite64', 'fdatasync', 'ftruncate', 'unlink', 'mkdir']
 CODECS = ['ber', 'der', 'per', 'uper', 'oer', 'jer', 'xer', 'gser']
 SCENARIOS = ['first_population', 'second_key', 'repopulate_after_change']
